@@ -603,13 +603,49 @@ def run(rep, ctx):
                  "SkipToMatchingQuote returns the position after the closing quote, or the end of the text if there is none (%d modelled texts)" % len(cases),
                  "SkipToMatchingQuote: (text, returned offset, expected) = %s" % shape)
         g = sp_[0]
+
+        def parse_cases():
+            """OptionHelper<std::string>::Parse on the modelled texts: the byte range of the returned value"""
+            bad = []
+            for text, want_pos in cases:
+                buf = text + "\0"
+                closed = want_pos >= 2 and text[want_pos - 1] == text[0]
+                want = (1, want_pos - 1 if closed else want_pos)
+                box = {}
+
+                def atom(t_, n_, env_):
+                    if n_["k"] in ("CXXConstructExpr", "CXXTemporaryObjectExpr") and "basic_string" in (n_.get("callee") or n_.get("ct") or ""):
+                        a_ = [x for x in kids(n_) if x is not None and strip(x)["k"] != "CXXDefaultArgExpr"]
+                        if len(a_) == 2:
+                            b0 = box["mi"].expr(a_[0], env_, 0)
+                            e0 = box["mi"].expr(a_[1], env_, 0)
+                            ptr = "*" in (strip(a_[1]).get("ct") or strip(a_[1]).get("t") or "")
+                            return b0 * 1000 + (e0 if ptr else b0 + e0)
+                    return None
+                mi = MiniInt(F, atom, mem=lambda a_, buf=buf: ord(buf[a_]) if 0 <= a_ < len(buf) else _oob(a_))
+                box["mi"] = mi
+                try:
+                    got = mi.call(g, [0, 0])
+                    got = (got // 1000, got % 1000) if isinstance(got, int) else got
+                except _OOB as e_:
+                    got = str(e_)
+                except AnalysisBroken as e_:
+                    raise AnalysisBroken("C11.V1: OptionHelper<std::string>::Parse: %s" % e_)
+                if got != want:
+                    bad.append("the value of `%s` is the bytes %s of the text, expected %s" % (text, got, want))
+            return bad
         endv = [v_ for v_ in g.walk() if v_["k"] == "VarDecl" and v_.get("name") == "end" and kids(v_)]
         rets = [r_ for r_ in g.find(lambda n: n["k"] == "ReturnStmt") if endv and any(x.get("declId") == endv[0]["declId"] for x in walk(r_))]
         if len(endv) != 1 or len(rets) != 1:
             raise AnalysisBroken("C11.V1: the quoted branch of OptionHelper<std::string>::Parse is not `end = c ? a : b; return string(start+1, end)`")
         co = strip(kids(endv[0])[0])
         if co["k"] != "ConditionalOperator":
-            raise AnalysisBroken("C11.V1: `end` is not initialised by a conditional expression")
+            # another way of computing the end: the returned [begin, end) is evaluated on the modelled texts instead
+            bad = parse_cases()
+            v1.check(not bad, "cut-form", short_loc(endv[0].get("l")), "value = [start+1, end) with end = the closing quote, or the end of an unterminated text", "; ".join(bad[:2]))
+            v1.check(not bad, "cut-cases", short_loc(endv[0].get("l")), "%d modelled texts: the value is exactly the quoted bytes" % len(cases), "; ".join(bad[:2]))
+            rep.extra["v1_cases"] = len(cases)
+            return
         cnd, ea, eb = kids(co)
         cur = g.params[0]["name"]
         okshape = render(ea).replace(" ", "") == cur + "-1" and render(eb).replace(" ", "") == cur
